@@ -329,3 +329,32 @@ def add_special_methods(prog, rng, backend):
         if rng.random() < 0.5:
             add(host, "setter = \"%s\"" % g, "store_" + g, ("mut", None), [("v", ("prim", "u32"))], ("unit",))
     return n
+
+
+def add_static_opaque_refs(prog, rng):
+    """`&'static Opaque` in return position and as a field of an out-struct / struct (legal Rust, accepted by the gate): known finding F6 shapes."""
+    hosts = [t for t in prog.types() if t.kind == "opaque" and not t.lifetimes]
+    if not hosts:
+        return 0
+    host = rng.choice(hosts)
+    mod = [m for m in prog.modules if host in m.items][0]
+    n = 0
+    kinds = rng.sample(["ret", "outfield", "field"], rng.randint(1, 2))
+    if "ret" in kinds:
+        m = spec.Method("vf_static_ref", rng.choice([("ref", None), None]), [], ("raw", "&'static %s" % host.name))
+        m.owner = host
+        host.methods.append(m)
+        n += 1
+    if "outfield" in kinds:
+        mod.extra_src += "    #[diplomat::out]\n    pub struct VfStaticOut { pub a: &'static %s, pub n: u8 }\n" % host.name
+        m = spec.Method("vf_static_out", ("ref", None), [], ("raw", "VfStaticOut"))
+        m.owner = host
+        host.methods.append(m)
+        n += 1
+    if "field" in kinds:
+        mod.extra_src += "    pub struct VfStaticSt { pub a: &'static %s, pub n: u8 }\n" % host.name
+        m = spec.Method("vf_static_in", ("ref", None), [("s", ("raw", "VfStaticSt"))], ("prim", "u8"))
+        m.owner = host
+        host.methods.append(m)
+        n += 1
+    return n
